@@ -53,3 +53,16 @@ Proof. intros Hj. unfold get, upd. cbn. apply nth_set_nth. exact Hj. Qed.
 
 Lemma get_out i s : n_of s <= i -> get i s = mkinp None CNothing false.
 Proof. intros H. unfold get. apply nth_overflow. exact H. Qed.
+
+Lemma set_nth_out {A} i (x : A) l : length l <= i -> set_nth i x l = l.
+Proof.
+  revert i. induction l as [|y r IH]; intros i Hi; [destruct i; reflexivity|]. cbn in Hi.
+  destruct i as [|i]; [lia|]. cbn. f_equal. apply IH. lia.
+Qed.
+
+Lemma att_upd_res i k o s : att (get k (upd i (set_res o) s)) = att (get k s).
+Proof.
+  destruct (Nat.lt_ge_cases i (n_of s)) as [H|H].
+  - rewrite get_upd by exact H. destruct (Nat.eqb_spec k i) as [->|]; reflexivity.
+  - unfold upd, get. cbn. rewrite set_nth_out by exact H. reflexivity.
+Qed.
